@@ -49,6 +49,7 @@ class C03(CheckBase):
     ID = "C03"
 
     def __init__(self, maxs=3, max_a=3, max_b=1, pins=False, third=False, tokens=("A", "B")):
+        self.kw = dict(maxs=maxs, max_a=max_a, max_b=max_b, pins=pins, third=third, tokens=tuple(tokens))
         self.maxs, self.max_per = maxs, {"A": max_a, "B": max_b, "C": 1}
         self.pins, self.third = pins, third
         self.tokens = tokens
